@@ -94,7 +94,7 @@ Definition refinement_links : list string :=
   ["min"; "max"; "length"; "email"; "url"; "regex"; "nonempty"; "int"; "positive"; "negative";
    "nonnegative"; "nonpositive"; "gt"; "gte"; "lt"; "lte"; "uuid"; "refine"; "describe"; "brand"; "readonly"].
 Definition nonjson_bases : list string :=
-  ["set"; "map"; "date"; "bigint"; "symbol"; "function"; "promise"; "nan"; "custom"; "instanceof"; "file"].
+  ["set"; "map"; "date"; "bigint"; "symbol"; "function"; "promise"; "nan"; "instanceof"; "file"].
 Local Close Scope string_scope.
 Definition is_one_of (n : str) (l : list string) : bool := existsb (fun x => s_is n x) l.
 
@@ -104,7 +104,7 @@ Definition lit_strs (l : list ex) : option (list str) :=
 Fixpoint zshape (e : ex) : shape :=
   match e with
   | EId n => ref_of_schema_name n
-  | ECall (EMember r name _) _ args =>
+  | ECall (EMember r name _) targs args =>
       if is_z r then
         (* a base:  z.name(args) *)
         if s_is name "string" then ShStr else if s_is name "number" then ShNum
@@ -127,6 +127,8 @@ Fixpoint zshape (e : ex) : shape :=
                                                     | Some k => [(key_text k, zshape (snd p))]
                                                     | None => [(L "...", ShBad (L "spread"))] end) ps)
           | _ => ShBad name end
+        (* z.custom<T>((val) => true): accepts every value, typed T (a mapped type) *)
+        else if s_is name "custom" then match targs with [t] => ShCoerce (tshape t) | _ => ShBad name end
         else if is_one_of name nonjson_bases then ShNonJson name (map zshape args)
         else ShBad name
       else if is_z_coerce r then
@@ -380,7 +382,16 @@ Definition compare_item (zm : list item) (n : str) (param : bool) (z t : shape) 
   | _, _ => compare_shapes param z t
   end.
 
-Record verdict := { v_tags : list tag; v_detail : list (str * list tag) }.
+(* v_keys: findings per key, named Item.key, so that a finding is excused by the Rust type written
+   at that very key and not by another member of the project *)
+Record verdict := { v_tags : list tag; v_detail : list (str * list tag); v_keys : list (str * list tag) }.
+Definition key_findings (n : str) (param : bool) (z t : shape) : list (str * list tag) :=
+  match z, t with
+  | ShObj zf, ShObj tf =>
+      flat_map (fun f => match field_of (fst f) zf with
+                         | Some zs => match compare_shapes param zs (snd f) with [] => [] | l => [(n ++ L "." ++ fst f, l)] end
+                         | None => [] end) tf
+  | _, _ => [] end.
 
 (* plain-mode module pm against Zod-mode module zm *)
 Definition compare_modules (pm zm : list item) : verdict :=
@@ -419,4 +430,7 @@ Definition compare_modules (pm zm : list item) : verdict :=
                  end
              end) ptypes in
   {| v_tags := add_tags (name_tags ++ schema_tags ++ flat_map snd per_item) [];
-     v_detail := filter (fun p => match snd p with [] => false | _ => true end) per_item |}.
+     v_detail := filter (fun p => match snd p with [] => false | _ => true end) per_item;
+     v_keys := flat_map (fun n => match plain_decl pm n, zod_decl zm n with
+                                  | Some t, Some z => key_findings n (mem n reach) z t
+                                  | _, _ => [] end) ptypes |}.
